@@ -128,9 +128,6 @@ def run_case(case, ctx):
                 code, text, exc, events = run_tool(ctx, case, argv, d)
                 wit = {"show": "%s: file_util.py %s -> exit %s %s" % (case["id"], " ".join(argv), code, text.strip().replace("\n", " | ")[-80:]), "files": [G.brief(s) for s in specs]}
                 src_empty = next((j for j, e in enumerate(expected) if len(e["data"]) == 0), None)
-                if case["src"] == "cas" and src_empty is not None:
-                    ctx.outcome("skipped-both-with-empty")
-                    return
                 for nm, kindname in (("both.cas", "cassette"), ("both.dsk", "disk")):
                     pth = os.path.join(d, nm)
                     kind, got = hostcli.kind_of(open(pth, "rb").read()) if os.path.exists(pth) else ("missing", [])
@@ -169,20 +166,18 @@ def run_case(case, ctx):
             path = os.path.join(d, out)
             if tgt == "bin":
                 fe = next((j for j, e in enumerate(expected) if len(e["data"]) == 0), None)
-                if cur.endswith("cas") and fe is not None:
-                    # known wrong behaviour modelled exactly: the tool sees only the files before the first empty one
-                    view = expected[:fe]
-                    out_ok = os.path.exists(path) and len(view) == 1 and open(path, "rb").read() == view[0]["data"]
-                    consistent = (len(view) == 1 and out_ok) or (len(view) > 1 and code != 0 and not os.path.exists(path)) or len(view) == 0
-                    if consistent:
-                        ctx.violation("convert", form, "COUNT:source-cassette-listing-stops-at-empty-file", wit, tr)
-                    else:
-                        ctx.violation("convert", form, "TO-BIN-WRONG-WITH-EMPTY-FILE-SOURCE", wit, tr)
-                    ctx.outcome("bad")
-                    return
+
+                def label(default):
+                    # a mismatch that is exactly what "the source listing stops at the first empty file" would produce gets that symptom
+                    if cur.endswith("cas") and fe is not None:
+                        view = expected[:fe]
+                        out_ok = os.path.exists(path) and len(view) == 1 and open(path, "rb").read() == view[0]["data"]
+                        if (len(view) == 1 and out_ok) or (len(view) > 1 and code != 0 and not os.path.exists(path)) or len(view) == 0:
+                            return "COUNT:source-cassette-listing-stops-at-empty-file"
+                    return default
                 if len(expected) > 1:
                     if code == 0 or os.path.exists(path):
-                        ctx.violation("convert", form, "TO-BIN-DID-NOT-REFUSE-MULTIPLE-FILES", wit, tr)
+                        ctx.violation("convert", form, label("TO-BIN-DID-NOT-REFUSE-MULTIPLE-FILES"), wit, tr)
                         ctx.outcome("bad")
                     else:
                         ctx.outcome("ok")
@@ -190,7 +185,7 @@ def run_case(case, ctx):
                         ctx.nontriv(case["id"])
                     return
                 if not os.path.exists(path) or open(path, "rb").read() != expected[0]["data"]:
-                    ctx.violation("convert", form, "TO-BIN-DATA-DIFFERS", wit, tr)
+                    ctx.violation("convert", form, label("TO-BIN-DATA-DIFFERS"), wit, tr)
                     ctx.outcome("bad")
                 else:
                     ctx.outcome("ok")
